@@ -102,6 +102,14 @@ def _guard_exprs(F, site):
     return out
 
 
+# variants whose payload is decided by evaluating the decoders over complete domains (the rule named carries the check)
+EVALUATED_PAYLOADS = {
+    "InvalidConnectFlags": "T-bits (all 256 flag bytes)", "InvalidConnackFlags": "H-valid (all flag bytes)",
+    "InvalidSubscriptionOption": "T-bits (all 256 option bytes)", "InvalidByteProperty": "H-bytevals",
+    "InvalidReasonCode": "H-raise reason bytes (all 256 bytes per decoder)", "InvalidPropertyLength": "T-props whole (short block)",
+}
+
+
 def h_raise(F, R):
     sites = raise_sites(F)
     R.analysed["raise_sites"] = len(sites)
@@ -121,6 +129,13 @@ def h_raise(F, R):
             R.fail("H-raise", "payload-arity/%s/%s" % (v, s["f"]["root"]), "%s raised with %d payload values" % (v, len(s["payload"])), where=loc(s["node"]))
             continue
         guards = _guard_exprs(F, s)
+        if not guards and v in EVALUATED_PAYLOADS and not s["f"]["root"].endswith(("decode_async", "decode_with_protocol", "new_with", "decode")):
+            # an unconditional constructor helper (`fn invalid(self) -> Error { Error::InvalidConnectFlags(self.0) }`): which value
+            # reaches it is decided where the helper is used; the payload of this variant is decided by evaluation
+            for role in roles:
+                n += 1
+            R.ok("H-raise", "payload/%s/%s/helper" % (v, s["f"]["root"]), "constructor helper; payload decided by %s" % EVALUATED_PAYLOADS[v])
+            continue
         gvars = set()
         for g in guards:
             gvars |= _vars(g)
